@@ -20,7 +20,11 @@ import fam_emitast
 
 ID = "C16"
 COQ_PROP = "C16"
-FAMILIES = [(fam_emitast, 4000, 40000)]
+import fam_parsesig  # noqa: E402
+import fam_parseast  # noqa: E402
+
+# bodies are carried by parse (function / argparse / class parsers) and by the emitters
+FAMILIES = [(fam_emitast, 3000, 40000), (fam_parsesig, 1500, 15000), (fam_parseast, 1500, 15000)]
 TECHNIQUE = ("Coq proof (list lemmas over the three splice sites, RewriteName = scoped substitution by induction over "
              "statement/expression trees; unbounded in body length and depth) + differential correspondence of "
              "EmitAst.v against emit.py/ast_utils.py/emitter_utils.py")
